@@ -75,18 +75,133 @@ def usize_args(body):
     return [l for l in range(2, body.argc + 1) if body.local_ty(l)["s"] == "usize"]
 
 
+# ---------------------------------------------------------------------------------------------------------------
+# The product type that carries the two runs of a merge.  It is recognised by what it holds — two `Cell<usize>` cursors and
+# two `Box<[usize]>` runs — whether it is a tuple or a struct, and whatever the order / names of its fields are.  Fields are
+# identified by (owner type, field index), which the driver records on every field projection.
+
+class _Runs:
+    pass
+
+
+def _is_cursor_ty(types, t):
+    return t["k"] == "adt" and t["d"] == "core::cell::Cell" and bool(t["a"]) and isinstance(t["a"][0], int) \
+        and types[t["a"][0]]["s"] == "usize"
+
+
+def _is_run_ty(types, t):
+    if t["k"] != "adt" or t["d"] != "alloc::boxed::Box" or not t["a"] or not isinstance(t["a"][0], int):
+        return False
+    e = types[t["a"][0]]
+    return e["k"] == "slice" and types[e["t"]]["s"] == "usize"
+
+
+def _field_tys(F, body, T):
+    """(type table, field type indices, field names) of a product type: the elements of a tuple or the fields of a struct"""
+    if T["k"] == "tuple":
+        return body.crate.types, list(T["ts"]), [None] * len(T["ts"])
+    if T["k"] == "adt":
+        a = F.adts.get(T["d"])
+        if a and a["kind"] == "struct" and len(a["variants"]) == 1 and a.get("_crate") is not None:
+            fs = a["variants"][0]["fields"]
+            return a["_crate"].types, [f["t"] for f in fs], [f["n"] for f in fs]
+    return None
+
+
+def _merge_layout(F, fn):
+    """The argument `Rc<T>` of a merge step whose payload T holds exactly two cursors and two runs."""
+    body = fn.body
+    for l in range(2, body.argc + 1):
+        t = body.local_ty(l)
+        if t["k"] != "adt" or t["d"] != "alloc::rc::Rc" or not t["a"] or not isinstance(t["a"][0], int):
+            continue
+        T = body.ty(t["a"][0])
+        ft = _field_tys(F, body, T)
+        if ft is None:
+            continue
+        types, tys, names = ft
+        cur = [i for i, x in enumerate(tys) if _is_cursor_ty(types, types[x])]
+        runs = [i for i, x in enumerate(tys) if _is_run_ty(types, types[x])]
+        if len(cur) == 2 and len(runs) == 2:
+            lay = _Runs()
+            lay.arg, lay.ty, lay.s, lay.cursors, lay.runs, lay.names, lay.nfields = l, t["a"][0], T["s"], cur, runs, names, len(tys)
+            return lay
+    raise kwalk.WalkLimit("%s: no argument carries the two runs and two cursors of the merge" % fn.q)
+
+
+def _run_cursor_pairs(F, fn, lay):
+    """run field -> the cursor field every element read `run[cursor.get()]` of this function indexes it with"""
+    body = fn.body
+    defs = _defs(body)
+
+    def fields(deps, wanted):
+        return {d[2] for d in deps if d[0] == "f" and (d[1] == lay.ty or body.ty(d[1])["s"] == lay.s) and d[2] in wanted}
+    pairs = {}
+    for blk in body.blocks:
+        if blk["cleanup"]:
+            continue
+        for st in blk["s"]:
+            if st["k"] != "assign":
+                continue
+            for pl in _rv_places(st["rv"]):
+                for k, p in enumerate(pl["p"]):
+                    if p == "*" or p["k"] != "i":
+                        continue
+                    r = fields(_deps_place(F, body, defs, {"l": pl["l"], "p": pl["p"][:k]}), lay.runs)
+                    if not r:
+                        continue
+                    c = fields(_deps_local(F, body, defs, p["l"]), lay.cursors)
+                    if len(r) != 1 or len(c) != 1:
+                        raise kwalk.WalkLimit("%s: an element read of run field(s) %s is indexed from cursor field(s) %s"
+                                              % (fn.q, sorted(r), sorted(c)))
+                    pairs.setdefault(next(iter(r)), set()).add(next(iter(c)))
+    if sorted(pairs) != sorted(lay.runs) or any(len(v) != 1 for v in pairs.values()) \
+            or len({next(iter(v)) for v in pairs.values()}) != 2:
+        raise kwalk.WalkLimit("%s: cannot pair each run with the one cursor that indexes it (%s)"
+                              % (fn.q, {k: sorted(v) for k, v in pairs.items()}))
+    return {r: next(iter(v)) for r, v in pairs.items()}
+
+
+def _feeding_range(body, defs, x):
+    """The `Range { start, end }` aggregate of the slice an operand was collected from: followed back through copies,
+    references and the receiver of each call (`collect(map(iter(index(_, range))))`) up to an `Index::index(_, Range)`."""
+    cur = x
+    for _ in range(24):
+        if cur.get("k") not in ("copy", "move"):
+            return None
+        d = defs.get(cur["l"], [])
+        if len(d) != 1:
+            return None
+        rv = d[0]
+        k = rv["k"]
+        if k == "agg":
+            return rv if rv["ak"] == "adt" and rv["adt"] == "core::ops::range::Range" and len(rv["xs"]) == 2 else None
+        if k in ("use", "cast"):
+            cur = rv["x"]
+        elif k == "ref":
+            cur = {"k": "copy", "l": rv["p"]["l"], "p": []}
+        elif k == "callres" and rv["xs"]:
+            ix = (rv.get("f") or "").endswith("Index>::index") and len(rv["xs"]) == 2
+            cur = rv["xs"][1] if ix else rv["xs"][0]
+        else:
+            return None
+    return None
+
+
 def rule_merge(F, rep, R):
     post = F.fn("<%s>::do_std_sort_merge_post_compare" % E)
     pre = F.fn("<%s>::do_std_sort_merge_pre_compare" % E)
     prep = F.fn("<%s>::do_std_sort_merge_prepare" % E)
-    # which argument is the unmerged tuple: Rc<(Cell, Box<[usize]>, Cell, Box<[usize]>)>
-    def unmerged_arg(fn):
-        for l in range(2, fn.body.argc + 1):
-            s = fn.body.local_ty(l)["s"]
-            if s.startswith("std::rc::Rc<(") and s.count("Cell<usize>") == 2:
-                return l
-        raise kwalk.WalkLimit("%s: unmerged argument not found" % fn.q)
-    ua = unmerged_arg(post)
+    lay = _merge_layout(F, post)
+    lay_pre = _merge_layout(F, pre)
+    if lay_pre.s != lay.s:
+        raise kwalk.WalkLimit("the merge steps carry their runs in different types (%s / %s)" % (lay_pre.s, lay.s))
+    ua = lay.arg
+    run_f = {str(i) for i in lay.runs}
+    cur_f = {str(i) for i in lay.cursors}
+
+    def fld(k):
+        return k.rsplit(".", 1)[1]
     table = {}
     for o in ORD:
         outs = _walk(F, rep, post, ords=[o], extra_term=_cellset_term, on_stmt=_touch_marks())
@@ -94,10 +209,10 @@ def rule_merge(F, rep, R):
         touches = set()
         for oc in outs:
             sets |= {m[1] for m in oc[1] if m[0] == "cellset" and m[1].startswith("%d.^." % ua)}
-            touches |= {m[1] for m in oc[1] if m[0] == "touch" and m[1].startswith("%d.^." % ua)}
-        table[o] = (frozenset(k.rsplit(".", 1)[1] for k in sets), frozenset(k.rsplit(".", 1)[1] for k in touches))
+            touches |= {m[1] for m in oc[1] if m[0] == "touch" and m[1].startswith("%d.^." % ua) and fld(m[1]) in run_f}
+        table[o] = (frozenset(fld(k) for k in sets), frozenset(fld(k) for k in touches))
     # pre_compare: the run whose element is pushed first is the comparison's left operand
-    up = unmerged_arg(pre)
+    up = lay_pre.arg
     outs = _walk(F, rep, pre, on_stmt=_touch_marks())
     first_runs = set()
     for oc in outs:
@@ -107,14 +222,14 @@ def rule_merge(F, rep, R):
             continue
         runs = []
         for m in seq:
-            if m[0] == "touch" and m[1].rsplit(".", 1)[1] in ("1", "3"):
-                runs.append(m[1].rsplit(".", 1)[1])
+            if m[0] == "touch" and fld(m[1]) in run_f:
+                runs.append(fld(m[1]))
             elif m[0] == "push":
                 runs.append("|")
-        txt = "".join(runs)
-        # e.g. "11|33|" : elements of run 1 read before first push
-        first = txt.split("|")[0]
-        second = txt.split("|")[1] if txt.count("|") >= 2 else ""
+        # e.g. [r, r, "|", s, s, "|"] : elements of run r read before the first push, of run s between the two pushes
+        cut = [i for i, x in enumerate(runs) if x == "|"]
+        first = runs[:cut[0]]
+        second = runs[cut[0] + 1:cut[1]]
         if first and second:
             first_runs.add((first[-1], second[-1]))
     ok_pre = len(first_runs) == 1
@@ -124,40 +239,12 @@ def rule_merge(F, rep, R):
                       "operand of the merge comparison (%s)" % sorted(first_runs), pre.loc)
         return
     lrun, rrun = next(iter(first_runs))
-    lcur = str(int(lrun) - 1)
-    rcur = str(int(rrun) - 1)
-    rep.ob(R, "merge|compare-operands", True, {"left_operand_run_field": lrun, "right_operand_run_field": rrun})
-    # prepare: the left operand's run is the earlier half [range.start, mid)
-    P = prov.Prov(F, prep.body)
-    mid_l = [l for l in range(2, prep.body.argc + 1) if prep.body.local_ty(l)["s"] == "usize"]
-    ok_prep = False
-    detail = None
-    for bb, si, s in prep.body.assigns():
-        rv = s["rv"]
-        if rv["k"] == "agg" and rv["ak"] == "tuple" and len(rv["xs"]) == 4:
-            from .c08 import _deep_origins
-            o_l = _deep_origins(P, rv["xs"][int(lrun)])
-            o_r = _deep_origins(P, rv["xs"][int(rrun)])
-            # the Range aggregates feeding each: look at Range aggregates in the body and their operands
-            detail = (sorted(map(str, o_l))[:6], sorted(map(str, o_r))[:6])
-    ranges = []
-    for bb, si, s in prep.body.assigns():
-        rv = s["rv"]
-        if rv["k"] == "agg" and rv["ak"] == "adt" and rv["adt"] == "core::ops::range::Range":
-            so = P.origins_op(rv["xs"][0])
-            eo = P.origins_op(rv["xs"][1])
-            ranges.append((bb, so, eo))
-    ranges.sort(key=lambda r: r[0])
-    if len(ranges) == 2 and mid_l:
-        m = ("arg", mid_l[0], ())
-        first_is_low = m in ranges[0][2] and m in ranges[1][1]
-        # the first range (by CFG order) feeds the first collected run; tuple operand order follows
-        # construction order `(Cell, left, Cell, right)`: check left operand comes from the first collect
-        ok_prep = first_is_low and int(lrun) < int(rrun)
-    rep.ob(R, "merge|left-run-is-earlier-half", ok_prep, {"ranges": [(sorted(map(str, a)), sorted(map(str, b))) for _, a, b in ranges]})
-    if not ok_prep:
-        rep.violation(R, "do_std_sort_merge_prepare|halves", "the merge comparison's left operand run is not the "
-                      "earlier half [start, mid) of the range", prep.loc)
+    # the cursor of a run is the one its element reads are indexed with (in the step that reads the comparison's operands)
+    cursor_of = _run_cursor_pairs(F, pre, lay_pre)
+    lcur = str(cursor_of[int(lrun)])
+    rcur = str(cursor_of[int(rrun)])
+    rep.ob(R, "merge|compare-operands", True, {"left_operand_run_field": lrun, "right_operand_run_field": rrun,
+                                              "left_cursor_field": lcur, "right_cursor_field": rcur})
     for o in ORD:
         sets, touches = table[o]
         take_left = o in ("Less", "Equal")
@@ -172,6 +259,28 @@ def rule_merge(F, rep, R):
                           "merge step on ordering %s advances cursor field(s) %s and reads run field(s) %s; a stable "
                           "merge must take from the %s run" % (o, sorted(sets), sorted(touches), "left" if take_left else "right"),
                           post.loc)
+    # prepare: the left operand's run is the earlier half [range.start, mid): the value stored in each run field of the
+    # payload is traced back to the `Range` its slice was taken with
+    P = prov.Prov(F, prep.body)
+    mid_l = usize_args(prep.body)
+    pdefs = _defs(prep.body)
+    built = [s["rv"] for _, _, s in prep.body.assigns()
+             if s["rv"]["k"] == "agg" and len(s["rv"]["xs"]) == lay.nfields and prep.body.ty(s["p"]["t"])["s"] == lay.s]
+    if len(built) != 1 or not mid_l:
+        raise kwalk.WalkLimit("%s: the runs handed to the merge are not built by one aggregate here" % prep.q)
+    rng = {}
+    for side, f in (("left", int(lrun)), ("right", int(rrun))):
+        r = _feeding_range(prep.body, pdefs, built[0]["xs"][f])
+        if r is None:
+            raise kwalk.WalkLimit("%s: cannot trace the %s run back to the range its slice was taken with" % (prep.q, side))
+        rng[side] = (P.origins_op(r["xs"][0]), P.origins_op(r["xs"][1]))
+    m = ("arg", mid_l[0], ())
+    ok_prep = m in rng["left"][1] and m in rng["right"][0]
+    rep.ob(R, "merge|left-run-is-earlier-half", ok_prep,
+           {"ranges": [(sorted(map(str, a)), sorted(map(str, b))) for a, b in (rng["left"], rng["right"])]})
+    if not ok_prep:
+        rep.violation(R, "do_std_sort_merge_prepare|halves", "the merge comparison's left operand run is not the "
+                      "earlier half [start, mid) of the range", prep.loc)
 
 
 def rule_partition(F, rep, R):
@@ -417,44 +526,134 @@ def rule_pivot(F, rep):
                       "pivot other than the first element, elements equal to it change their relative order" % n, site)
 
 
-def _deps(body, defs, names, l, seen=None):
-    """user variables a local is computed from (through arithmetic, copies, tuple fields and `.get()` / `.len()` calls)"""
+# ---------------------------------------------------------------------------------------------------------------
+# "computed from": a small def-use closure over one body.  Dependencies are identities of the program, never names:
+#   ("f", owner type, field index, field type)   a field of a product type read through a reference (`(*r).f`, `&(*r).f`)
+#   ("arg", local)                               a parameter
+
+def _defs(body):
+    defs = {}
+    for blk in body.blocks:
+        if blk["cleanup"]:
+            continue
+        for st in blk["s"]:
+            if st["k"] == "assign" and not st["p"]["p"]:
+                defs.setdefault(st["p"]["l"], []).append(st["rv"])
+        t = blk["t"]
+        if t["k"] == "call" and not t["dst"]["p"]:
+            defs.setdefault(t["dst"]["l"], []).append({"k": "callres", "xs": t["xs"], "f": callee_name(t), "t": t})
+    return defs
+
+
+def _rv_places(rv):
+    """places read by an rvalue"""
+    for key in ("x", "a", "b"):
+        x = rv.get(key)
+        if isinstance(x, dict) and x.get("k") in ("copy", "move"):
+            yield x
+    if rv["k"] in ("ref", "rawptr", "discr") and isinstance(rv.get("p"), dict):
+        yield rv["p"]
+    for x in rv.get("xs") or ():
+        if isinstance(x, dict) and x.get("k") in ("copy", "move"):
+            yield x
+
+
+def _stored_fields(place):
+    """fields a place reads behind a dereference (projections of a local aggregate such as `_t.0` are not stored fields)"""
+    out = set()
+    deref = False
+    for p in place["p"]:
+        if p == "*":
+            deref = True
+        elif p["k"] == "f" and deref and "o" in p:
+            out.add(("f", p["o"], p["i"], p["t"]))
+    return out
+
+
+def _deps_place(F, body, defs, place, seen=None):
+    fs = _stored_fields(place)
+    if fs:
+        return fs
+    return _deps_local(F, body, defs, place["l"], seen)
+
+
+def _deps_local(F, body, defs, l, seen=None):
+    """what a local is computed from (through arithmetic, copies, casts, references, aggregate operands, the scalar getters
+    `.get()` / `.len()` / deref, and helper functions that do not exist on the reference tree); every definition of the
+    local counts (may-depend)"""
     seen = seen if seen is not None else set()
     if l in seen:
         return set()
     seen.add(l)
     out = set()
-    ty = body.local_ty(l)
-    if l in names:
-        out.add(names[l])
-        if ty["k"] == "ref" or l <= body.argc:
-            return out
-    d = defs.get(l, [])
-    if len(d) != 1:
-        return out
-    rv = d[0]
+    if 1 <= l <= body.argc:
+        out.add(("arg", l))
 
     def op(x):
         if isinstance(x, dict) and x.get("k") in ("move", "copy"):
-            return _deps(body, defs, names, x["l"], seen)
+            return _deps_place(F, body, defs, x, seen)
         return set()
-    k = rv["k"]
-    if k in ("use", "cast", "unop"):
-        out |= op(rv.get("x") or rv.get("a"))
-    elif k == "binop":
-        out |= op(rv["a"]) | op(rv["b"])
-    elif k == "ref":
-        out |= _deps(body, defs, names, rv["p"]["l"], seen)
-    elif k == "agg":
-        for x in rv["xs"]:
-            out |= op(x)
-    elif k == "callres":
-        # only scalar getters carry a dependency; an iterator item (`enumerate().next()`) is not "computed from" the cursor
-        f = rv.get("f") or ""
-        if f.endswith("Cell>::get") or f.endswith("::len") or f.endswith("Deref>::deref"):
+    for rv in defs.get(l, []):
+        k = rv["k"]
+        if k in ("use", "cast", "unop"):
+            out |= op(rv.get("x") or rv.get("a"))
+        elif k == "binop":
+            out |= op(rv["a"]) | op(rv["b"])
+        elif k in ("ref", "rawptr"):
+            out |= _deps_place(F, body, defs, rv["p"], seen)
+        elif k == "agg":
             for x in rv["xs"]:
                 out |= op(x)
+        elif k == "callres":
+            # only scalar getters carry a dependency; an iterator item (`enumerate().next()`) is not "computed from" the cursor
+            f = rv.get("f") or ""
+            if f.endswith("Cell>::get") or f.endswith("::len") or f.endswith("Deref>::deref"):
+                for x in rv["xs"]:
+                    out |= op(x)
+            else:
+                fd = rv["t"]["f"] if "t" in rv else {}
+                q = fd.get("r")
+                g = F.fn_opt(q) if (q and fd.get("rlocal") and F.is_new_fn(q)) else None
+                if g is not None and g.body is not None:
+                    # a helper that is new on this tree: its result may depend on its arguments and on every field it reads
+                    for x in rv["xs"]:
+                        out |= op(x)
+                    for blk in g.body.blocks:
+                        if blk["cleanup"]:
+                            continue
+                        for st in blk["s"]:
+                            if st["k"] == "assign":
+                                for pl in _rv_places(st["rv"]):
+                                    out |= _stored_fields(pl)
+                        if blk["t"]["k"] == "call":
+                            for x in blk["t"]["xs"]:
+                                if x.get("k") in ("copy", "move"):
+                                    out |= _stored_fields(x)
     return out
+
+
+def _is_cell_field(body, d):
+    if d[0] != "f":
+        return False
+    t = body.ty(d[3])
+    return t["k"] == "adt" and t["d"] == "core::cell::Cell"
+
+
+def _dep_label(body, defs, names, d):
+    """display name of a dependency: the field's name, else the user variable bound to a reference to that field"""
+    if d[0] == "arg":
+        return names.get(d[1]) or "arg%d" % d[1]
+    for blk in body.blocks:
+        for st in blk["s"]:
+            if st["k"] == "assign":
+                for pl in list(_rv_places(st["rv"])) + [st["p"]]:
+                    for p in pl["p"]:
+                        if p != "*" and p["k"] == "f" and p.get("o") == d[1] and p["i"] == d[2] and p.get("n"):
+                            return p["n"]
+    for l, rvs in sorted(defs.items()):
+        if l in names and len(rvs) == 1 and rvs[0]["k"] == "ref" and d in _stored_fields(rvs[0]["p"]):
+            return names[l]
+    return "%s.%d" % (body.ty(d[1])["s"], d[2])
 
 
 def rule_flush(F, rep):
@@ -468,17 +667,8 @@ def rule_flush(F, rep):
             continue
         body = fn.body
         names = body.local_names()
-        defs = {}
-        for bi, blk in enumerate(body.blocks):
-            if blk["cleanup"]:
-                continue
-            for st in blk["s"]:
-                if st["k"] == "assign" and not st["p"]["p"]:
-                    defs.setdefault(st["p"]["l"], []).append(st["rv"])
-            t = blk["t"]
-            if t["k"] == "call" and not t["dst"]["p"]:
-                defs.setdefault(t["dst"]["l"], []).append({"k": "callres", "xs": t["xs"], "f": callee_name(t)})
-        # sites: RangeFrom { start } aggregates
+        defs = _defs(body)
+        # sites: RangeFrom { start } aggregates whose start is read from a cursor cell (`Cell<usize>` field behind a reference)
         sites = []
         for bi, blk in enumerate(body.blocks):
             if blk["cleanup"]:
@@ -487,14 +677,7 @@ def rule_flush(F, rep):
                 if st["k"] == "assign" and st["rv"]["k"] == "agg" and st["rv"].get("adt", "").endswith("ops::range::RangeFrom"):
                     x = st["rv"]["xs"][0]
                     if x.get("k") in ("move", "copy"):
-                        cur = {nm for nm in _deps(body, defs, names, x["l"])}
-                        def is_cell_ref(l):
-                            t = body.local_ty(l)
-                            if t["k"] != "ref":
-                                return False
-                            t2 = body.ty(t["t"]) if "t" in t else None
-                            return bool(t2) and t2["k"] == "adt" and t2.get("d") == "core::cell::Cell"
-                        cursors = {nm for nm in cur if any(names.get(l) == nm and is_cell_ref(l) for l in names)}
+                        cursors = {d for d in _deps_place(F, body, defs, x) if _is_cell_field(body, d)}
                         if cursors:
                             sites.append((bi, cursors))
         stops = [b for b, _ in sites]
@@ -515,7 +698,7 @@ def rule_flush(F, rep):
                     rv = d[0]
                     if rv["k"] == "callres" and (rv.get("f") or "").endswith("Index>::index"):
                         ix = rv["xs"][1]
-                        idx_deps = _deps(body, defs, names, ix["l"]) if ix.get("k") in ("move", "copy") else set()
+                        idx_deps = _deps_place(F, body, defs, ix) if ix.get("k") in ("move", "copy") else set()
                         break
                     if rv["k"] in ("use", "cast") and rv["x"].get("k") in ("move", "copy"):
                         l = rv["x"]["l"]
@@ -527,25 +710,30 @@ def rule_flush(F, rep):
                 if idx_deps is None:
                     continue
                 n += 1
-                missing = sorted(cursors - idx_deps)
+                missing = sorted(_dep_label(body, defs, names, d) for d in cursors - idx_deps)
                 ok = not missing
-                rep.ob(R, "%s|flush@bb%d" % (fn.q, b), ok, {"fn": fn.q, "run_cursor": sorted(cursors), "index_depends_on": sorted(idx_deps)})
+                rep.ob(R, "%s|flush@bb%d" % (fn.q, b), ok,
+                       {"fn": fn.q, "run_cursor": sorted(_dep_label(body, defs, names, d) for d in cursors),
+                        "index_depends_on": sorted(_dep_label(body, defs, names, d) for d in idx_deps)})
                 if not ok:
                     rep.violation(R, "%s|flush-index-ignores|%s" % (fn.q, ",".join(missing)),
                                   "%s copies the rest of a run starting at cursor %s, but the output index is computed from %s only: "
                                   "items already taken from that run are not accounted for and merged entries are overwritten"
-                                  % (fn.q, "/".join(missing), sorted(idx_deps)), fn.loc)
+                                  % (fn.q, "/".join(missing), sorted(_dep_label(body, defs, names, d) for d in idx_deps)), fn.loc)
     rep.floor(R, n, 2, "run-flush copy loops")
 
 
 def run(F, rep, tier):
     R = rep.rule("C17.R1", "tie-break / advance decision tables of merge, partition, minArray, maxArray and the set "
                  "walks equal the ones the contracts require (stability, first-minimal/maximal, union/inter/diff)")
+    und = len(rep.undecided)
     rep.attempt(rule_merge, F, rep, R)
     rep.attempt(rule_partition, F, rep, R)
     rep.attempt(rule_minmax, F, rep, R)
     rep.attempt(rule_sets, F, rep, R)
-    rep.floor(R, rep.rules[R]["obligations"], 20, "table rows")
+    if len(rep.undecided) == und:
+        # a handler whose shape could not be decided is reported as UNDECIDED; its missing rows are not "the matcher saw nothing"
+        rep.floor(R, rep.rules[R]["obligations"], 20, "table rows")
     rep.attempt(rule_member, F, rep)
     rep.attempt(rule_pivot, F, rep)
     rep.attempt(rule_flush, F, rep)
